@@ -65,8 +65,12 @@ META = {
     "NOT mirrored in the Lean model (inventory of the anchor files): what GDAL does "
     "with the calls (encoding, overview resampling, copy_src_overviews, decoding); resampling_s2rio for names that are attributes but "
     "not members of the Resampling enum; the text parsing inside _extract_geo_transform and pyproj's CRS handling inside "
-    "_mk_crs_coord (C09 models the parsed values; judged here by the provenance round trips; K22); GCP geoboxes as writer input; "
-    "intermediate_compression dicts that carry a NAMED parameter of _write_cog.",
+    "_mk_crs_coord (C09 models the parsed values; judged here by the provenance round trips; K22).  Final increment: GCP geoboxes as "
+    "writer input are modelled (writeCogGcp: GCPGeoBox has no `transform`; the call fails with AttributeError after the overwrite guard "
+    "— an existing destination asked to be overwritten is already removed, gcp_overwrite_removes_destination_cex — and GDAL is never "
+    "called) and tied through _write_cog and the public to_cog / write_cog; intermediate_compression dicts carrying named parameters of "
+    "_write_cog on the supplied-overviews path are modelled (writeCogLayersFull) and tied; a duplicate keyword (overview_levels) is a "
+    "TypeError, pinned.",
     "technique": "Lean 4 proof over hand model of the decision core + differential correspondence + GDAL round trip",
     "design_ref": "DESIGN.md §4 C15",
 }
